@@ -1,12 +1,19 @@
 /-
 Driver part for the C09 service-layer cases (case ids starting with `s`): model = Kap.C09.Svc; the spec clauses
-evaluated on the OBSERVED output are the ones that need no model:
+evaluated on the OBSERVED output:
   * a recorder registered only on other topics received nothing tagged with this topic (no cross-topic delivery);
   * on a directly collected topic a recorder receives exactly the events collected there after it registered,
-    once each, in order, with the id's preceding level as previous level.
-Everything else (match semantics, republishing along handler chains) is judged against the model.
+    once each, in order, with the id's preceding level as previous level;
+  * delivered only along registered handlers, at most once, one-hop match (specific messages for common failures);
+  * **chain semantics**: what every recorder observed for every topic must be EXACTLY the declarative specification
+    of Kap/Spec/C09Svc.lean (`SvcSpec.received`: per collect, the event iff a chain of registered specs with holding
+    match expressions leads there, any depth, with the prescribed previous level) — evaluated through the
+    incremental table `SvcSpec.Tbl`, proved equal to the specification (`table_is_spec`). It uses no model state.
+The model is then compared as well (by `svc_delivery_is_chain_semantics` it can only differ from the observed output
+when the specification clause has already failed, or when the history is outside the hypotheses, which is flagged).
 -/
 import Kap.Model.C09Svc
+import Kap.Spec.C09Svc
 open Kap Kap.C09 Kap.C09.Svc
 
 namespace Kap.C09.SvcDrv
@@ -49,6 +56,13 @@ def obsTimes (tok : String) : List Int :=
     | [_, _, t, _] => t.toInt?
     | _ => none)
 
+/-- number of hops from the collected topic `T` to `X` along the unique ways in -/
+def chainDepth (specs : List Spec) (T : String) : Nat → String → Nat
+  | 0, _ => 0
+  | n + 1, X => if X == T then 0 else match SvcSpec.pred specs X with
+    | some sp => chainDepth specs T n sp.topic + 1
+    | none => 0
+
 structure DSt where
   /-- per collect (identified by its unique time): the topics it may legitimately reach -/
   reachOf : List (Int × List String) := []
@@ -56,6 +70,8 @@ structure DSt where
   that topic at that moment — an event seen on a target one hop away must satisfy that spec's match -/
   hop1 : List (Int × SEv × List Spec) := []
   model : Svc.St := {}
+  /-- the specification, carried along incrementally (never looks at the model) -/
+  tbl : SvcSpec.Tbl := {}
   direct : List String := []                         -- topics collected directly so far
   /-- independent bookkeeping for the spec clauses: per direct topic the collects so far (id, level, time, prev) -/
   directLog : List (String × SEv) := []
@@ -105,6 +121,11 @@ def judge (_id : String) (lines : Array String) : Verdict := Id.run do
           | none => pure ()
         if ts.eraseDups.length != ts.length then
           return .specfail "delivery-exactly-once" s!"recorder {esc n} topic {esc T} received an event twice: {o}"
+      -- the global clause: exactly the chain semantics, at any depth
+      let spec := renderL ((st.tbl.gotOf n T).map renderSEv)
+      if obs != [spec] then
+        return .specfail "chain-semantics" s!"recorder {esc n} topic {esc T}: the chain semantics of the history gives {spec}, observed {obs}"
+      if (st.tbl.gotOf n T).any (fun e => e.prev != 0) then st := addBr st "spec-prev-nonzero"
       if m != "-" then st := addBr st "recorder-nonempty"
       if obs != [m] then return .mismatch s!"recorder {esc n} topic {esc T}: model {m} observed {obs}"
     | _ =>
@@ -131,8 +152,17 @@ def judge (_id : String) (lines : Array String) : Verdict := Id.run do
           st := addBr st "update-spec"
         | .dereg _ _ => st := addBr st "dereg-spec"
         let before := st.model.log.length
+        let arrBefore := st.tbl.arr.length
         let (m', ok) := Svc.step st.model op
-        st := { st with model := m' }
+        st := { st with model := m', tbl := st.tbl.step op }
+        -- how deep the chain semantics carried this event (coverage of the spec's own branches)
+        match op with
+        | .collect T _ =>
+          let newArr := (st.tbl.arr.drop arrBefore).map (·.1)
+          let depth := newArr.foldl (fun d X => Nat.max d (chainDepth st.tbl.specs T (st.tbl.specs.length + 1) X)) 0
+          st := addBr st s!"chain-depth-{depth}"
+        | _ => pure ()
+        if !forwardOnly harnessOrder m'.specs then return .badop s!"publish edge that does not go forward in the harness order (outside the modelled class): {l}"
         if m'.overflow then return .badop "cyclic handler configuration (outside the modelled class)"
         if !singleEntry m' st.direct then return .badop s!"topic with more than one way in (outside the modelled class): {l}"
         match op with
